@@ -27,55 +27,68 @@ impl CompressedColumnIndex {
         segment_dir.join(format!("{}_{}.zfc", uid, field))
     }
 
-    pub fn write_to_path(&self, path: &Path) -> Result<(), StoreError> {
-        let file = std::fs::File::create(path)?;
-        let mut writer = std::io::BufWriter::new(file);
-        BinaryHeader::new(FileKind::ZoneCompressedOffsets.magic(), 1, 0).write_to(&mut writer)?;
-
+    /// Serialises header + entries (sorted by zone id) into a single buffer.
+    fn to_bytes(&self) -> Result<Vec<u8>, StoreError> {
         let mut entries: Vec<_> = self.entries.values().cloned().collect();
         entries.sort_by_key(|e| e.zone_id);
 
+        let mut buf = Vec::with_capacity(BinaryHeader::TOTAL_LEN + entries.len() * MIN_ENTRY_SIZE);
+        BinaryHeader::new(FileKind::ZoneCompressedOffsets.magic(), 1, 0).write_to(&mut buf)?;
+
         for e in entries {
-            writer.write_all(&e.zone_id.to_le_bytes())?;
-            writer.write_all(&e.block_start.to_le_bytes())?;
-            writer.write_all(&e.comp_len.to_le_bytes())?;
-            writer.write_all(&e.uncomp_len.to_le_bytes())?;
-            writer.write_all(&e.num_rows.to_le_bytes())?;
+            buf.extend_from_slice(&e.zone_id.to_le_bytes());
+            buf.extend_from_slice(&e.block_start.to_le_bytes());
+            buf.extend_from_slice(&e.comp_len.to_le_bytes());
+            buf.extend_from_slice(&e.uncomp_len.to_le_bytes());
+            buf.extend_from_slice(&e.num_rows.to_le_bytes());
         }
-        writer.flush()?;
+        Ok(buf)
+    }
+
+    /// Temporary sibling of `path` (same directory, so the final rename is atomic).
+    fn tmp_path_for(path: &Path) -> PathBuf {
+        let mut name = path.as_os_str().to_os_string();
+        name.push(".tmp");
+        PathBuf::from(name)
+    }
+
+    pub fn write_to_path(&self, path: &Path) -> Result<(), StoreError> {
+        // Readers may open the segment while it is still being flushed: write the complete
+        // index to a temporary file and rename it, so the final path is either absent or complete.
+        let buf = self.to_bytes()?;
+        let tmp_path = Self::tmp_path_for(path);
+        let mut file = std::fs::File::create(&tmp_path)?;
+        file.write_all(&buf)?;
+        file.flush()?;
+        file.sync_all()?;
+        drop(file);
+        std::fs::rename(&tmp_path, path)?;
         Ok(())
     }
 
     pub async fn write_to_path_async(&self, path: &Path) -> Result<(), StoreError> {
         use tokio::io::AsyncWriteExt;
 
-        let mut file = tokio::fs::File::create(path)
+        // Readers may open the segment while it is still being flushed: write the complete
+        // index to a temporary file and rename it, so the final path is either absent or complete.
+        let buf = self.to_bytes()?;
+        let tmp_path = Self::tmp_path_for(path);
+
+        let mut file = tokio::fs::File::create(&tmp_path)
             .await
             .map_err(|e| StoreError::FlushFailed(format!("Failed to create index file: {}", e)))?;
 
-        // Write header
-        let header = BinaryHeader::new(FileKind::ZoneCompressedOffsets.magic(), 1, 0);
-        let mut header_buf = Vec::with_capacity(BinaryHeader::TOTAL_LEN);
-        header.write_to(&mut header_buf)?;
-        file.write_all(&header_buf)
+        // Write header + entries
+        file.write_all(&buf)
             .await
             .map_err(|e| StoreError::FlushFailed(format!("Failed to write header: {}", e)))?;
-
-        // Write entries
-        let mut entries: Vec<_> = self.entries.values().cloned().collect();
-        entries.sort_by_key(|e| e.zone_id);
-
-        for e in entries {
-            file.write_all(&e.zone_id.to_le_bytes()).await?;
-            file.write_all(&e.block_start.to_le_bytes()).await?;
-            file.write_all(&e.comp_len.to_le_bytes()).await?;
-            file.write_all(&e.uncomp_len.to_le_bytes()).await?;
-            file.write_all(&e.num_rows.to_le_bytes()).await?;
-        }
 
         file.sync_all()
             .await
             .map_err(|e| StoreError::FlushFailed(format!("Failed to sync file: {}", e)))?;
+        drop(file);
+
+        tokio::fs::rename(&tmp_path, path).await?;
         Ok(())
     }
 
